@@ -453,6 +453,21 @@ def run(item):
                         np.shape(tt_), np.shape(vv_), len(mat), len(mat[0]), want_n, want_n, want_shape))
                 else:
                     ch.proved.append('readback shape %s@%s' % (name, g))
+        # the list form of the numeric sampler: every entry is shaped like ITS OWN expression and equals the single-expression sampler
+        if spec.nx >= 2 and cfg.method != 'SS' and not spec.nz:
+            with quiet():
+                xa_, xb_ = inst.b.xel[0], inst.b.xel[1]
+                tq_ = inst.b.stage.t
+                es_ = [ca.horzcat(xa_, xb_ * xa_), xa_ * tq_, ca.vertcat(xa_, xb_ * xa_), ca.vertcat(xb_, xa_, xa_ + xb_)]
+                t_lo, t_hi = [float(v_) for v_ in np.atleast_1d(sol_.sample(tq_, grid='control')[1])[[0, -1]]]
+                tv_ = np.array([t_lo + (t_hi - t_lo) * f_ for f_ in (0.1, 0.35, 0.6, 0.85)])
+                many_ = sol_.sampler(es_)(tv_)
+                single_ = [sol_.sampler(e_)(tv_) for e_ in es_]
+            bad_ = [i_ for i_ in range(len(es_)) if np.shape(many_[i_]) != np.shape(single_[i_]) or not np.allclose(many_[i_], single_[i_], rtol=1e-9, atol=1e-12)]
+            if bad_:
+                V('sampler-list', 'sol.sampler([e1..e4])', 'entries %s of the list form differ from the single-expression sampler (shapes %s vs %s)' % (bad_, [np.shape(a_) for a_ in many_], [np.shape(a_) for a_ in single_]))
+            else:
+                ch.proved.append('sampler list form: 4 differently shaped expressions at 4 times equal the single-expression sampler (ground)')
     except Exception as e_:
         V('readback-raises', 'sol.sample', 'numeric read-back raised: %s' % str(e_).strip().splitlines()[-1][:200])
     r = result(inst, ch, {'violations': viol, 'twins_ok': twins_ok, 'twins_bad': twins_bad, 'shape': '%s|%s' % (cfg.tag(), spec.t0[0] + '/' + spec.T[0]),
